@@ -334,9 +334,11 @@ def normalize_url(
 
         # TODO: what to do of empty query items vs. no valued
         # TODO: should be dedupe query items?
+        # NOTE: items are unescaped first so that the filters and the sort
+        # cannot be fooled by the way an item was escaped
         qsl = [
             item
-            for item in safe_qsl_iter(query)
+            for item in safely_unquote_qsl(safe_qsl_iter(query))
             if not should_strip_query_item(
                 item,
                 normalize_amp=normalize_amp,
